@@ -1,10 +1,161 @@
-//! Engine E3 (supplementary): real rayon, natively. See DESIGN.md §3.4.
-use crate::Args;
-use vcore::json::J;
+//! Engine E3 (supplementary, never decisive on its own): the library with the
+//! *real* rayon, natively, compared with the sequential build. This is
+//! observation of executions the harness does not control; it is kept because
+//! a bitwise mismatch between two real executions is a violation with
+//! certainty and because it keeps working when a changed tree uses a rayon API
+//! the model lacks. See DESIGN.md §3.4.
 
-pub fn cmd_e3(_args: &Args) -> i32 {
-    2
+use crate::{s_real, s_seq, Args};
+use std::collections::BTreeMap;
+use std::time::Instant;
+use vcore::case::{gen_case, Case, GenLimits};
+use vcore::digest::Outcome;
+use vcore::json::J;
+use vcore::rng::{mix, Rng};
+use vcore::surface::{OpKind, ALL_OPS};
+
+fn case_for(seed: u64, idx: u64, max_n: usize) -> Case {
+    let mut rng = Rng::new(mix(seed, idx, 0xE3));
+    gen_case(
+        &mut rng,
+        &GenLimits {
+            max_n,
+            ..Default::default()
+        },
+    )
 }
-pub fn replay(_j: &J, _path: &str, _args: &Args) -> i32 {
-    2
+
+fn run_real_in_pool(case: &Case, op: OpKind, threads: usize) -> Outcome {
+    if threads == 0 {
+        return s_real::run_op(case, op);
+    }
+    let pool = rayon::ThreadPoolBuilder::new().num_threads(threads).build().expect("pool");
+    pool.install(|| s_real::run_op(case, op))
+}
+
+fn replay_json(seed: u64, idx: u64, case: &Case, op: OpKind, threads: usize, comp: &str, a: &str, b: &str) -> J {
+    J::obj()
+        .set("property", J::s("C09"))
+        .set("engine", J::s("E3:native-real-rayon"))
+        .set("replay", J::s("probabilistic: real threads, schedule not controlled; the replay repeats the call"))
+        .set("verif_seed", J::s(&seed.to_string()))
+        .set("case_index", J::u(idx))
+        .set("case", case.to_json())
+        .set("op", J::s(op.name()))
+        .set("threads", J::u(threads as u64))
+        .set(
+            "expect",
+            J::obj()
+                .set("component", J::s(comp))
+                .set("digest_real", J::s(a))
+                .set("digest_ref", J::s(b)),
+        )
+}
+
+pub fn cmd_e3(args: &Args) -> i32 {
+    let seed = args.u64("seed", 1);
+    let start = args.u64("start", 0);
+    let count = args.u64("count", 20);
+    let stride = args.u64("stride", 1).max(1);
+    let max_n = args.u64("max-n", 200) as usize;
+    let out = args.str("out", "/tmp/verif_out");
+    let shard = args.u64("shard", 0);
+    let replay_dir = args.str("replay-dir", "/verif/replays");
+    let time_limit = args.f64("time-limit", 1e9);
+    let pools: Vec<usize> = args
+        .str("pools", "0,1,2,3,8")
+        .split(',')
+        .filter_map(|s| s.parse().ok())
+        .collect();
+    let t0 = Instant::now();
+    let mut evals = 0u64;
+    let mut cases = 0u64;
+    let mut by_pool: BTreeMap<usize, u64> = BTreeMap::new();
+    let mut code = 0;
+    let mut viol = J::Null;
+    'outer: for k in 0..count {
+        if t0.elapsed().as_secs_f64() > time_limit {
+            break;
+        }
+        let idx = start + k * stride;
+        let case = case_for(seed, idx, max_n);
+        cases += 1;
+        for op in ALL_OPS {
+            let r = s_seq::run_op(&case, *op);
+            for &t in &pools {
+                // twice: repeated calls in one process must agree too
+                for _rep in 0..2 {
+                    let o = run_real_in_pool(&case, *op, t);
+                    evals += 1;
+                    *by_pool.entry(t).or_insert(0) += 1;
+                    if let Some((comp, a, b)) = o.first_diff(&r) {
+                        let j = replay_json(seed, idx, &case, *op, t, &comp, &a, &b);
+                        let path = crate::write_replay(&replay_dir, &format!("C09-E3-{}-{}.json", seed, idx), &j);
+                        println!(
+                            "E3-VIOLATION property=C09 case={} op={} threads={} component={} replay={}",
+                            idx,
+                            op.name(),
+                            t,
+                            comp,
+                            path
+                        );
+                        viol = J::obj()
+                            .set("case_index", J::u(idx))
+                            .set("op", J::s(op.name()))
+                            .set("threads", J::u(t as u64))
+                            .set("component", J::s(&comp))
+                            .set("replay", J::s(&path));
+                        code = 1;
+                        break 'outer;
+                    }
+                }
+            }
+        }
+    }
+    let j = J::obj()
+        .set("engine", J::s("E3"))
+        .set("shard", J::u(shard))
+        .set("rayon_num_threads_env", J::s(&std::env::var("RAYON_NUM_THREADS").unwrap_or_default()))
+        .set("global_pool_threads", J::u(rayon::current_num_threads() as u64))
+        .set("cases", J::u(cases))
+        .set("evaluations", J::u(evals))
+        .set(
+            "by_local_pool",
+            J::Obj(by_pool.into_iter().map(|(k, v)| (if k == 0 { "global".to_string() } else { k.to_string() }, J::u(v))).collect()),
+        )
+        .set("wall_s", J::Num(t0.elapsed().as_secs_f64()))
+        .set("violation", viol);
+    let _ = std::fs::create_dir_all(&out);
+    let _ = std::fs::write(format!("{}/e3_shard_{}.json", out, shard), j.pretty());
+    code
+}
+
+pub fn replay(j: &J, path: &str, args: &Args) -> i32 {
+    let case = match j.get("case").ok_or("case missing".to_string()).and_then(Case::from_json) {
+        Ok(c) => c,
+        Err(e) => {
+            eprintln!("replay: {}", e);
+            return 2;
+        }
+    };
+    let op = match j.get("op").and_then(|o| o.as_str()).and_then(OpKind::from_name) {
+        Some(o) => o,
+        None => {
+            eprintln!("replay: op missing");
+            return 2;
+        }
+    };
+    let threads = j.get("threads").and_then(|t| t.as_u64()).unwrap_or(0) as usize;
+    let reps = args.u64("reps", 200);
+    let r = s_seq::run_op(&case, op);
+    for i in 0..reps {
+        let o = run_real_in_pool(&case, op, threads);
+        if let Some((comp, a, b)) = o.first_diff(&r) {
+            println!("replayed (attempt {}): component={} digest_real={} digest_ref={}", i, comp, a, b);
+            println!("VIOLATION property=C09 replay={}", path);
+            return 1;
+        }
+    }
+    println!("REPLAY-NO-VIOLATION property=C09 replay={} (probabilistic replay, {} attempts)", path, reps);
+    0
 }
